@@ -449,24 +449,6 @@ func init() {
 
 var recipeByName = map[string]recipe{}
 
-// which variant of Decrypt the tree under test is: does a document made under the all-zero file
-// key decrypt when the unwrap callback fails?  (Check.v: the model follows, the oracle does not.)
-var variantOnce string
-
-func variant() string {
-	if variantOnce == "" {
-		m := encx.Manifest{K: "k", Kw: 1, Wfk: []byte{1, 2, 3}, Cph: 2, Np: []byte{1, 2, 3, 4, 5, 6, 7}}
-		doc := encx.SpecEncrypt(m, make([]byte, 32), []byte("probe"))
-		res := encx.RunDecrypt(doc, encx.SItems{{K: "de", N: len(doc)}}, nil, "", hx.NewRand(1))
-		if res.Clean() {
-			variantOnce = "Original"
-		} else {
-			variantOnce = "Fixed"
-		}
-	}
-	return variantOnce
-}
-
 func run(ctx *core.Ctx, in input) error {
 	rc, ok := recipeByName[in.Recipe]
 	if !ok {
@@ -519,7 +501,7 @@ func run(ctx *core.Ctx, in input) error {
 	cs.Trivial = !c.mutated && c.failAt < 0
 	cs.Observed = map[string]any{"call_error": dres.CallErr != nil, "out_len": len(dres.Out), "status": dres.Status,
 		"doc_len": len(c.doc)}
-	cs.Coq = fmt.Sprintf("CTamper %s %s %s %s %s %s %s", variant(), in.P.Coq(), docArg, c.tbl.Coq(), hx.CoqString(in.OptKn),
+	cs.Coq = fmt.Sprintf("CTamper %s %s %s %s %s %s", in.P.Coq(), docArg, c.tbl.Coq(), hx.CoqString(in.OptKn),
 		sc.Coq(), dres.CoqObs())
 	if !dres.Known {
 		cs.Direct, cs.Note = 1, "unclassified stream outcome"
@@ -547,7 +529,6 @@ func run(ctx *core.Ctx, in input) error {
 
 func gen(ctx *core.Ctx) {
 	r := ctx.R
-	ctx.Sink.Extra["variant_of_tree"] = variant()
 	names := make([]string, 0, len(recipes))
 	for _, rc := range recipes {
 		names = append(names, rc.name)
